@@ -259,6 +259,100 @@ def non_vacuity(prop, root):
     )
 
 
+# ---------------------------------------------------------------------------------------------
+# whole-package behaviour-preserving variants: every check must keep its verdict
+# ---------------------------------------------------------------------------------------------
+def _variant_unparse(src):
+    import ast
+
+    return ast.unparse(ast.parse(src)) + "\n"
+
+
+def _variant_rename_locals(src):
+    """Rename local variables (not parameters, not attributes) of every function consistently: x -> x_r."""
+    import ast
+    import builtins
+
+    tree = ast.parse(src)
+    protected = set(dir(builtins))
+
+    class R(ast.NodeTransformer):
+        def visit_FunctionDef(self, node):
+            params = {a.arg for a in node.args.args + node.args.kwonlyargs + node.args.posonlyargs}
+            if node.args.vararg:
+                params.add(node.args.vararg.arg)
+            if node.args.kwarg:
+                params.add(node.args.kwarg.arg)
+            local = set()
+            for n in ast.walk(node):
+                if isinstance(n, ast.Name) and isinstance(n.ctx, ast.Store):
+                    local.add(n.id)
+                if isinstance(n, ast.ExceptHandler) and n.name:
+                    local.add(n.name)
+                if isinstance(n, (ast.Global, ast.Nonlocal)):
+                    params |= set(n.names)
+            local -= params | protected
+            # do not rename inside nested functions' own scopes differently: one pass, same map
+            for n in ast.walk(node):
+                if isinstance(n, ast.Name) and n.id in local:
+                    n.id = n.id + "_r"
+                if isinstance(n, ast.ExceptHandler) and n.name in local:
+                    n.name = n.name + "_r"
+            return node
+
+    tree = R().visit(tree)
+    ast.fix_missing_locations(tree)
+    return ast.unparse(tree) + "\n"
+
+
+GLOBAL_VARIANTS = {"unparse-roundtrip": _variant_unparse, "rename-locals": _variant_rename_locals}
+
+
+def _run_global(args):
+    name, prop, root = args
+    from .main import run_property
+    import glob
+
+    base = root or model.REPO
+    overlay = {}
+    for path in glob.glob(os.path.join(base, "pymemcache", "**", "*.py"), recursive=True):
+        rel = os.path.relpath(path, base)
+        if rel.startswith("pymemcache/test/"):
+            continue
+        try:
+            overlay[rel] = GLOBAL_VARIANTS[name](open(path, encoding="utf8").read())
+        except Exception as e:
+            return name, prop, "variant-broken: %r" % (e,), []
+    try:
+        code, chk = run_property(prop, "quick", 0, root=root, overlay=overlay, write=False)
+        err = getattr(chk, "partial", None)
+        return name, prop, ("analysis-error: %s" % err[:120]) if err else "ok", sorted({f.key for f in chk.findings()})
+    except model.AnalysisError as e:
+        return name, prop, "analysis-error: %s" % str(e)[:160], []
+    except Exception as e:
+        return name, prop, "internal-error: %r" % (e,), []
+
+
+def global_variants(root=None, jobs=16, props=None):
+    from . import registry
+
+    props = props or sorted(registry.CLAIMED)
+    base = {p: _baseline_keys(p, root) for p in props}
+    work = [(n, p, root) for n in GLOBAL_VARIANTS for p in props]
+    with ProcessPoolExecutor(jobs) as ex:
+        res = list(ex.map(_run_global, work))
+    bad = 0
+    for name, prop, status, keys in res:
+        b = base.get(prop) or set()
+        # finding keys that embed normalised statement text may legitimately change spelling under renaming
+        same = status == "ok" and {k.split(":")[0] + ":" + k.split(":")[1] for k in keys} == {k.split(":")[0] + ":" + k.split(":")[1] for k in b}
+        if not same:
+            bad += 1
+            print("global variant %-18s %s: verdict changed (%s) %s" % (name, prop, status, sorted(set(keys) ^ b)[:3]))
+    print("global variants: %d/%d (variant x check) keep their verdict" % (len(res) - bad, len(res)))
+    return bad
+
+
 def selftest(prop=None, root=None, jobs=16):
     t0 = time.time()
     muts = [mu for mu in MUTANTS if prop in (None, "all", mu["prop"])]
@@ -276,4 +370,6 @@ def selftest(prop=None, root=None, jobs=16):
     n_s = len([r for r in res if r["kind"] == "silent" and r["verdict"] != "skipped"])
     n_so = len([r for r in res if r["verdict"] == "silent"])
     print("selftest: %d/%d firing mutants reported (%d by the intended rule), %d/%d behaviour-preserving variants silent, %d skipped, %.1fs" % (n_c, n_fire, n_int, n_so, n_s, len([r for r in res if r["verdict"] == "skipped"]), time.time() - t0))
+    if prop in (None, "all"):
+        bad += global_variants(root, jobs)
     return 0 if bad == 0 else 1
